@@ -323,12 +323,22 @@ def bothDirections (a : Adapter) : Bool :=
   | some (_, b, f, _) => b && f
   | none => false
 
-/-- The domain on which the prefilter is proved not to change the result (`C07.prefilter_safe_partial`): the read is
+/-- `ShortReadsPassKmerFinder` (`_make_kmer_finder` wraps the finder in it when `back_adapter and front_adapter`): reads shorter than
+    `len(sequence) + int(max_error_rate * len(sequence))` are not shown to the `KmerFinder` at all — they can align to an inner
+    part of the adapter, which no k-mer set covers. (When the finder is the mock finder the wrapper is not used, but the mock
+    finder says yes anyway.) -/
+def shortReadPasses (a : Adapter) (read : Bytes) : Bool :=
+  bothDirections a && decide (read.length < a.seq.length + a.thr a.seq.length)
+
+/-- The domain on which the `KmerFinder` itself is proved never to reject a read that the aligner matches: the read is
     ASCII without NUL bytes, and it is not the case that the adapter searches in both overlap directions while the read
-    is shorter than the adapter plus its allowed errors (then the read can lie strictly inside the adapter). -/
+    is shorter than the adapter plus its allowed errors (then the read can lie strictly inside the adapter; such reads
+    bypass the finder, see `shortReadPasses`). -/
 def safeDomain (a : Adapter) (read : Bytes) : Bool :=
-  read.all (fun c => c != 0 && c < 128) &&
-    !(bothDirections a && decide (read.length < a.seq.length + a.thr a.seq.length))
+  read.all (fun c => c != 0 && c < 128) && !shortReadPasses a read
+
+/-- the domain of `C07.prefilter_safe_partial`: ASCII without NUL bytes -/
+def asciiNoNul (read : Bytes) : Bool := read.all (fun c => c != 0 && c < 128)
 
 /-- the sequence `kmers_present` is called with (`RightmostFrontAdapter` reverses the read) -/
 def finderInput (a : Adapter) (read : Bytes) : Bytes :=
@@ -338,6 +348,6 @@ def finderInput (a : Adapter) (read : Bytes) : Bytes :=
 
 /-- `match_to` with the prefilter, as the code has it -/
 def matchToFiltered (a : Adapter) (read beyond : Bytes) : Option SingleMatch :=
-  if kmersPresent (finderFor a) (finderInput a read) beyond then matchTo a read else none
+  if shortReadPasses a read || kmersPresent (finderFor a) (finderInput a read) beyond then matchTo a read else none
 
 end Cutadapt.Kmer
